@@ -264,6 +264,13 @@ static void final_free(void) {
 }
 /* probes: 0 = free now; 1 = sentinel then drain through the public API, then free; 2 = clear, reuse, free; 3 = full iterator pass removing everything */
 static void h_probe(int which) {
+    if (which == 4) {       /* continue the live iteration to its end: every remaining element exactly once, in order */
+        if (!it_live) return;
+        int guard = 0;
+        while (it_live && guard++ < 40) { h_apply((op_t){O_ITR_GET}); h_apply((op_t){O_ITR_NEXT}); }
+        if (it_live) sx_fail("CT.itr", "CT.itr|endless", "iterator still alive after %d steps over %d elements", guard, n);
+        final_free(); return;
+    }
     end_iterator();
     if (which == 0) { final_free(); return; }
     if (which == 1) {
@@ -310,6 +317,6 @@ static void h_config(int argc, char **argv) {
 static const char *h_cfg(void) { return cfgbuf; }
 
 int main(int argc, char **argv) {
-    static const sx_harness H = { "c12_cont", h_config, h_reset, h_enabled, h_apply, h_canon, 4, h_probe, h_cleanup, h_fmt, h_cfg, NULL };
+    static const sx_harness H = { "c12_cont", h_config, h_reset, h_enabled, h_apply, h_canon, 5, h_probe, h_cleanup, h_fmt, h_cfg, NULL };
     return sx_main(argc, argv, &H);
 }
